@@ -28,6 +28,10 @@ def context_programs(tier):
     out.append(('comment-q', doc({'comment': ['a', R('c'), 'b'], 'kind': '?'}, 't'), []))
     out.append(('comment-bang', doc({'comment': ['a', R('c'), 'b'], 'kind': '!'}, 't'), []))
     out.append(('cdata', doc({'cdata': ['a', R('d', 'v<&'), 'b']}, 't'), []))
+    # character entities in an expression are decoded before evaluation also in comments and CDATA sections
+    ent = lambda src, raw: {'interp': {'py': src, 'raw': raw}}      # noqa: E731
+    out.append(('entities-in-cdata-and-comment', doc({'cdata': ['a', ent("len('&') + (1 if 1 < 2 else 0)", "len('&amp;') + (1 if 1 &lt; 2 else 0)"), 'b']},
+                                                     {'comment': ['c', ent("rec('q', \"x\")", "rec('q', &quot;x&quot;)"), 'd'], 'kind': ''}, 't'), []))
     # switches: meta:interpolation on a subtree (text, comments, CDATA of the subtree; attributes unaffected)
     inner_on = {'tag': 'i', 'interp_switch': 'on', 'children': [R('on1')]}
     off = {'tag': 'p', 'interp_switch': 'off', 'static': [['t', ['q', R('attr')]]], 'children': [
